@@ -29,6 +29,7 @@ func ReadRows(data []byte, columns []Column, visibleOnly bool) []map[string]inte
 
 // Debug enables debug output for tuple decoding
 var Debug bool
+
 // DebugTable filters debug output to specific table name
 var DebugTable string
 
@@ -47,24 +48,7 @@ func DecodeTuple(tuple *HeapTupleData, columns []Column) map[string]interface{} 
 			num = idx + 1
 		}
 
-		// For varlena types, check if we have a short varlena (1-byte header)
-		// Short varlena only needs 1-byte alignment, not the standard 4-byte
-		colAlign := alignFromChar(col.Align)
-		if colAlign == 0 {
-			colAlign = typeAlign(col.TypID, col.Len)
-		}
-		
-		// Special handling for varlena: short varlena uses 1-byte alignment
-		if col.Len == -1 && offset < len(tuple.Data) {
-			// Try 1-byte alignment first to check for short varlena
-			if isShortVarlena(tuple.Data[offset:]) {
-				colAlign = 1
-			}
-		}
-		
-		prevOffset := offset
-		offset = align(offset, colAlign)
-
+		// A NULL attribute occupies neither space nor alignment padding, so test it before aligning
 		if tuple.IsNull(num) {
 			if Debug {
 				bitmapInfo := "no bitmap"
@@ -77,11 +61,29 @@ func DecodeTuple(tuple *HeapTupleData, columns []Column) map[string]interface{} 
 						bitmapInfo = fmt.Sprintf("bitmap len=%d < needed %d", len(tuple.Bitmap), byteIdx+1)
 					}
 				}
-				fmt.Printf("DEBUG: col=%s num=%d offset=%d (align=%d) NULL (%s)\n", col.Name, num, offset, colAlign, bitmapInfo)
+				fmt.Printf("DEBUG: col=%s num=%d offset=%d NULL (%s)\n", col.Name, num, offset, bitmapInfo)
 			}
 			result[col.Name] = nil
 			continue
 		}
+
+		// For varlena types, check if we have a short varlena (1-byte header)
+		// Short varlena only needs 1-byte alignment, not the standard 4-byte
+		colAlign := alignFromChar(col.Align)
+		if colAlign == 0 {
+			colAlign = typeAlign(col.TypID, col.Len)
+		}
+
+		// Special handling for varlena: short varlena uses 1-byte alignment
+		if col.Len == -1 && offset < len(tuple.Data) {
+			// Try 1-byte alignment first to check for short varlena
+			if isShortVarlena(tuple.Data[offset:]) {
+				colAlign = 1
+			}
+		}
+
+		prevOffset := offset
+		offset = align(offset, colAlign)
 
 		val, consumed := readValue(tuple.Data, offset, col.TypID, col.Len)
 		if Debug {
@@ -93,7 +95,7 @@ func DecodeTuple(tuple *HeapTupleData, columns []Column) map[string]interface{} 
 				}
 				dataPreview = fmt.Sprintf(" raw=%x", tuple.Data[offset:end])
 			}
-			fmt.Printf("DEBUG: col=%s num=%d offset=%d->%d (align=%d/%c) len=%d consumed=%d val=%v%s\n", 
+			fmt.Printf("DEBUG: col=%s num=%d offset=%d->%d (align=%d/%c) len=%d consumed=%d val=%v%s\n",
 				col.Name, num, prevOffset, offset, colAlign, col.Align, col.Len, consumed, val, dataPreview)
 		}
 		result[col.Name] = val
@@ -122,7 +124,7 @@ func alignFromChar(c byte) int {
 func typeAlign(typID, length int) int {
 	// PostgreSQL type alignments from pg_type.dat
 	// 'd' = 8 (double), 'i' = 4 (int), 's' = 2 (short), 'c' = 1 (char)
-	
+
 	switch typID {
 	// Double alignment (8 bytes)
 	case OidInt8, OidFloat8, OidTimestamp, OidTimestampTZ, OidTime, OidMoney, OidPgLsn:
@@ -131,7 +133,7 @@ func typeAlign(typID, length int) int {
 		return 8
 	case OidInterval, OidTimeTZ: // 16 and 12 bytes but 'd' aligned
 		return 8
-		
+
 	// Int alignment (4 bytes)
 	case OidInt4, OidOid, OidFloat4, OidDate, OidXid, OidCid:
 		return 4
@@ -144,20 +146,20 @@ func typeAlign(typID, length int) int {
 		return 4
 	case OidInt4Range, OidInt8Range, OidNumRange, OidDateRange, OidTsRange, OidTsTzRange:
 		return 4
-		
+
 	// Short alignment (2 bytes)
 	case OidInt2, OidTid:
 		return 2
-		
+
 	// Int alignment (4 bytes) - macaddr types
 	case OidMacaddr, OidMacaddr8:
 		return 4
-		
+
 	// Char alignment (1 byte)
 	case OidBool, OidChar, OidName, OidUUID:
 		return 1
 	}
-	
+
 	// Default based on length
 	if length == -1 {
 		return 4 // varlena default
